@@ -201,6 +201,9 @@ class Real(Part):
     def run(self, params, ctx):
         from vlib import convo
 
+        if ctx.extra.get("hangs", 0) >= 2:
+            ctx.count("skipped_after_hang_fuse")
+            return dict(labels=["skipped:fuse"], nontrivial=False, count=0)
         self.n += 1
         if self.n % 40 == 0 or not self.gw.hasreceiver():
             self.gw.exit()
